@@ -68,12 +68,15 @@ func runC09() {
 	rep.Rule = "random call trees (depth<=3 quick/5 thorough; frames entered by CALL/STATICCALL/DELEGATECALL/CALLCODE, each ending in STOP/REVERT/INVALID, failure caught or propagated; bodies mix SSTORE, LOG0 and precompile calls: approveShares, delegateV2, crossChain(FX,value), transferFromShares failing after its allowance write, delegateV2 failing inside, approveShares failing before the action, write methods through non-CALL opcodes) run on the real EVM at ample gas and on a ladder of gas limits from below intrinsic to above observed usage; non-trivial = a native action started and at least one frame failed; distinct by (tree, gas limit)"
 	w := NewWorld(seed)
 	var items []string
-	for t := -1; t < ntrees; t++ {
+	for t := -2; t < ntrees; t++ {
 		g := NewGen(r, w, thorough)
 		g.rewards = t%8 == 3 // one tree in eight may trigger finding C09-1
 		g.tokenCB = t%4 == 1 // one tree in four may call the hostile token through crossChain
+		g.panicky = t%5 == 2 // one tree in five may run into a keeper panic
 		var root *Node
-		if t < 0 {
+		if t == -2 {
+			root = witnessPanic(g) // executeClaim panicking after its first write, failure swallowed by the caller
+		} else if t < 0 {
 			root = witnessC091(g) // the minimal replay of finding C09-1, every run
 		} else {
 			root = g.Tree()
@@ -297,6 +300,7 @@ func (tc *treeCtx) runOn(base sdk.Context, gas uint64) runRes {
 	if r.Res.Err != nil {
 		o.Refused, o.Failed = true, true
 		o.VmError = r.Res.Err.Error()
+		o.Aborted = strings.HasPrefix(o.VmError, "PANIC")
 	} else {
 		o.Failed = r.Res.Failed
 	}
@@ -444,7 +448,9 @@ func (tc *treeCtx) judge(rep *lib.Report, rr runRes, gas uint64, desc string, fa
 	rep.Case(fmt.Sprintf("%s|%d", desc, gas), ex.started && ex.failed)
 	rep.Count(fmt.Sprintf("tx_failed=%v", o.Failed))
 	rep.Count(fmt.Sprintf("survivors=%d", min(len(o.Natives), 4)))
-	if o.Refused {
+	if o.Aborted {
+		rep.Count("aborted_by_keeper_panic")
+	} else if o.Refused {
 		rep.Count("refused_below_intrinsic")
 	}
 	if !intsEq(ex.natives, o.Natives) {
@@ -651,5 +657,22 @@ func witnessC091(g *Gen) *Node {
 	b.Body = []*Node{{Kind: NPCall, ID: m.ID, CallKind: lib.STATICCALL, M: m}}
 	root.Body = []*Node{b}
 	g.nextAddr = 2
+	return root
+}
+
+// witnessPanic: user -> A { SSTORE ; CALL crosschain.executeClaim(result of a vanished bridge call), ignore failure ; SSTORE ; STOP }.
+// The keeper deletes the pending claim and then panics. The panic must take the whole transaction with it.
+func witnessPanic(g *Gen) *Node {
+	root := &Node{Kind: NFrame, ID: g.id(), CallKind: lib.CALL, Addr: 0, End: "return"}
+	m := &Marker{ID: g.id(), Kind: MkExecPanic, Ctx: 0, Claim: g.w.panicClaims[0]}
+	g.claimsPanic = 1
+	g.w.fill(m)
+	root.Body = []*Node{
+		{Kind: NSStore, ID: g.id(), Slot: 1, Val: 1},
+		{Kind: NPCall, ID: m.ID, CallKind: lib.CALL, Caught: true, M: m},
+		{Kind: NSStore, ID: g.id(), Slot: 2, Val: 2},
+	}
+	g.slots[0] = []uint64{1, 2}
+	g.nextAddr = 1
 	return root
 }
